@@ -10,7 +10,7 @@ PROPS = ['Props/C14.lean']
 def keyfn(case, res, m):
     # finding key = monitor rule (+ the operation for wrong results; + the type for unusable proxy types)
     ev = res.get('events') or [['-', '-']]
-    if m['rule'] in ('traceback', 'hang', 'call-failed', 'lost-update'):
+    if m['rule'] in ('traceback', 'hang', 'call-failed', 'lost-update', 'dead-proxy'):
         return m['rule']
     if m['rule'] == 'unusable-proxy-type':
         return f"{m['rule']}:{ev[-1][1]}"
@@ -38,9 +38,12 @@ def run(chk):
         'operations + a final read of every object) of list/dict/namespace/value/Counter methods with arbitrary '
         'picklable arguments (ints, None, bools, str, big int, tuples, nested lists/dicts, bytes, float, frozenset, '
         'proxies), boundary indices (-7..5 on short lists), missing keys/attributes, methods that mutate and raise '
-        '(4 exception classes), managed() views, proxies used inside the server, and append batches issued '
+        '(4 exception classes), managed() views of the same value handed out several times and dropped one by one '
+        '(every remaining view is called right after each drop), proxies used inside the server incl. a hosted '
+        'method calling another hosted method that raises, and append batches issued '
         'concurrently from up to 3 threads in each of up to 3 processes; every outcome is compared with the same '
-        'operation on local Python objects (monitor) and with proxyStep pySem in `drv proxycall` (tie), which also '
+        'operation on local Python objects (monitor; for exceptions also the [function, line] frames of the hosted '
+        'methods in the server-side traceback vs. the direct call) and with proxyStep pySem in `drv proxycall` (tie), which also '
         'checks the final state of each object. non-trivial = >= 2 client processes, >= 2 object kinds, >= 4 '
         'operations, history ran to its end; distinct = distinct (case, event list)')
     from collections import Counter
